@@ -1621,3 +1621,40 @@ def fearray_obligations(prop, tier):
               clause="the result at every (e, p) is the numpy operation on the tensors at (e, p), for all Ne, nPg (fields of ranks 0 ... 4, constants and numbers on either side, size-1 leading axes)", timeout=600)
            for w in ("elementwise", "transpose", "matmul", "dot", "reduce")]
     return obs
+
+
+# ---------------------------------------------------------------------------------------------- normals of boundary groups (C08)
+
+@_guard
+def ob_normals(dim, nPe):
+    """_GroupElem.Get_normals_e_pg at the generic (e, p) for arbitrary node coordinates and reference gradients: raw normal == t_r x t_s (surfaces) / e_z x t_r (lines) with
+    t = sum_n dN_n x_n; normalised normal == raw / |raw| (unit, same direction); a field; for all Ne, nPg"""
+    sp = gen.Space(dict(x=(NE, nPe, 3), dNr=(NPG, dim, nPe)), nspare=6)
+    g, NPs, Fe = env(sp, "EasyFEA.FEM._group_elem")
+    gl, _, _ = env(sp, "EasyFEA.FEM._linalg")
+    gl["np"], gl["FeArray"] = g["np"], g["FeArray"]
+    g["Normalize"] = extract.compile_fn(extract.get(LP, "Normalize"), gl)
+    me = sx.Mock("self", dim=dim, connect=_Conn(), _global_to_local_nodes=_Table(_Conn("local")), coord=_Table(sp.arr("x")), Get_dN_pg=lambda mt: sp.arr("dNr"))
+    f = fn_of(GP, "_GroupElem.Get_normals_e_pg", g)
+    raw = f(me, "mass", None, False)
+    x, dN = sp.arr("x"), sp.arr("dNr")
+    tr = gen.einsum("pn,end->epd", dN[:, 0], x)
+    if dim == 1:
+        want = gen.NP(sp).cross(sp.lift(np.array([0, 0, 1])), tr)
+    else:
+        want = gen.NP(sp).cross(tr, gen.einsum("pn,end->epd", dN[:, 1], x))
+    check(raw, want, f"raw normal (dim {dim}, nPe {nPe}) != cross product of the tangent vectors", f"normals:raw:{dim}:{nPe}")
+    if not getattr(raw, "fe", False):
+        raise Refuted("Get_normals_e_pg does not return a field", signature="normals:type")
+    unit = f(me, "mass", None, True)
+    nrm = gen.NP(sp).linalg.norm(want, axis=-1, keepdims=True)
+    check(_plain(unit) * nrm, want, "normalised normal x |raw| != raw normal", f"normals:unit:{dim}:{nPe}")
+    dot = gen.einsum("epd,epd->ep", _plain(unit), _plain(unit))
+    check(dot, sp.full((NE, NPG), 1), "the normalised normal is not a unit vector", f"normals:norm:{dim}:{nPe}")
+    return Verdict(DISCHARGED, backend=BACKEND + "; square roots as algebraic generators with their defining relation", sub=7)
+
+
+def normals_obligations(prop, tier):
+    return [Ob(f"{prop}.gp.normals.{dim}d.n{nPe}", ob_normals, (dim, nPe), "P", (f_(GP, "_GroupElem.Get_normals_e_pg"), f_(LP, "Normalize")),
+               clause="raw normal == cross product of the tangent vectors sum_n dN_n x_n (e_z x tangent for lines); normalised == raw / |raw|, unit; arbitrary (curved) elements; all Ne, nPg", timeout=1800)
+            for dim, nPe in ((1, 2), (1, 3), (2, 3), (2, 4)) + (((1, 4), (2, 6)) if tier == "thorough" else ())]
